@@ -660,3 +660,31 @@ func TestKF_SetEmptyMemberNeverRemoved(t *testing.T) {
 		return nil
 	})
 }
+
+// fixed by c0e8958: with RWMode MMap a database whose active segment was exactly full could not be reopened
+func TestKF_MMapExactlyFullActiveSegment(t *testing.T) {
+	for _, rw := range []RWMode{FileIO, MMap} {
+		dir, _ := ioutil.TempDir("", "kf")
+		defer os.RemoveAll(dir)
+		opt := DefaultOptions
+		opt.Dir = dir
+		opt.RWMode = rw
+		opt.SegmentSize = 2 * (DataEntryHeaderSize + 2 + 2 + 4)
+		db, err := Open(opt)
+		if err != nil {
+			t.Fatal(err)
+		}
+		for _, k := range []string{"k1", "k2"} {
+			if err := db.Update(func(tx *Tx) error { return tx.Put("bk", []byte(k), []byte("vvvv"), Persistent) }); err != nil {
+				t.Fatal(err)
+			}
+		}
+		db.Close()
+		db, err = Open(opt)
+		if err != nil {
+			t.Errorf("REPRODUCED: RWMode %v: reopen with an exactly full active segment: %v", rw, err)
+			continue
+		}
+		db.Close()
+	}
+}
